@@ -526,7 +526,7 @@ def model_projection(st: dict) -> dict:
             "nS": sum(1 for r in wire if r["t"] == "S"), "nE": sum(1 for r in wire if r["t"] == "E"),
             "hrun": 1 if (c["hid"] not in (0, 99) and c["hpc"] in ("gate", "sgate", "rd", "never")) else 0,
             "tail": c["dpos"] > c["ppos"], "fclose": bool(c["fclose"]), "close": bool(c["close"]),
-            "start": c["spc"]}
+            "start": c["spc"], "hxdev": bool(c.get("hxDev"))}
 
 
 def real_projection(x: Exec) -> dict:
@@ -545,6 +545,8 @@ def real_projection(x: Exec) -> dict:
 
 def compare(mp: dict, rp: dict) -> Optional[str]:
     for k in ("closed", "lost", "paused", "idle", "hrun", "nS", "nE"):
+        if k in ("nS", "nE") and mp.get("hxdev"):
+            continue        # the named deviation has corrupted the byte stream: responses cannot be counted
         if mp[k] != rp[k]:
             return k
     if "msgs" in rp:
@@ -1081,7 +1083,30 @@ def selftest(ctx: Ctx) -> int:
         e["o"]["pop"] = 0
         e["o"]["paused"] = False
     bads.append(("QueueBound|Backpressure", b))
-    vs, _ = validate_batch("ServerConnTrace", "ServerConnTrace.cfg", [slim(good)] + [slim(t) for _, t in bads])
+    # a malformed head (invalid UTF-8 in a non-absolute target) answered 400 + close; corruption: the
+    # server closes without having written the 400
+    y = Exec(loop, mode="app", eager=True)
+    bad_head = srvkit.BAD_HEADS[-6]
+    add_item(y.items, [bad_head], "bad", 1, True)
+    y.deliver(bad_head)
+    y.settle()
+    y.finish()
+    good2 = y.trace("selftest")
+    b = copy.deepcopy(good2)
+    b["cfg"]["resps"] = []
+    b["cfg"]["wlen"] = 0
+    for e in b["events"]:
+        e["o"]["w"] = 0
+    bads.append(("BadGets4xxAndClose", b))
+    b = copy.deepcopy(good)                      # a status line inside a chunked body, handler had raised HTTPException
+    b["cfg"]["resps"][2]["garbage"] = True
+    b["cfg"]["resps"][2]["hxw"] = True
+    bads.append(("InOrderOnce_HTTPExceptionAfterOutput", b))
+    vs, _ = validate_batch("ServerConnTrace", "ServerConnTrace.cfg",
+                           [slim(good), slim(good2)] + [slim(t) for _, t in bads])
+    print("good trace 2 (400 for a malformed head):", vs[1].ok, vs[1].clause)
+    ok &= vs[1].ok
+    vs = [vs[0]] + vs[2:]
     print("good trace:", vs[0].ok, vs[0].clause)
     ok &= vs[0].ok
     for (want, _), v in zip(bads, vs[1:]):
